@@ -91,7 +91,7 @@ def run(tier):
     n = 0
     if C.ob("C17/anchor", GLOB, f is not None, "glob_to_regex not found"):
         import lexer
-        pats = [ch for ch in lexer.CHARS if ch != "\\"] + ["\\*", "\\?", "\\\\"] + ["*.rs", "debian/*", "src/?.c", "a+b(1)", "x\\*y", "[ab]", "a.b?c*d\\\\e", "**", "é/*"]
+        pats = [ch for ch in lexer.CHARS if ch != "\\"] + ["\\*", "\\?", "\\\\"] + ["*.rs", "debian/*", "src/?.c", "a+b(1)", "x\\*y", "[ab]", "a.b?c*d\\\\e", "**", "é/*", "./tools/*", "./README", "../x", ".hidden", "a/./b", "\\**", "x\\?*"]
         for pat in pats:
             want = dep5(pat)
             mod.regexes = []
@@ -200,6 +200,24 @@ def run(tier):
             else:
                 got.append(str(v)[:60])
         C.ob("C17/pattern-tokeniser", "lossy deserialize_file_list", got == [want], "splits 'p1 p2\\np3  p4' into %s, expected %s (same as the lossless reader)" % (got, want), F.fn(dk)["sp"])
+
+    # ------------------------------------------------------------------ D4a the files paragraph's own licence: synopsis = first line, text = all further lines
+    import c15
+    lk = LL + "FilesParagraph::license"
+    lf = F.fn(lk)
+    if C.ob("C17/anchor", lk, lf is not None, "not found"):
+        cases = {"name only": ([("atom", "lname", "word")], ("enum", LIC + "Name", (symstr.atom("lname"),))),
+                 "name and a three-line text": ([("atom", "lname", "word"), ("lit", "\n"), ("atom", "t1", "line"), ("lit", "\n"), ("atom", "t2", "line"), ("lit", "\n"), ("atom", "t3", "line")],
+                                                ("enum", LIC + "Named", (symstr.atom("lname"), symstr.mk([("atom", "t1", "line"), ("lit", "\n"), ("atom", "t2", "line"), ("lit", "\n"), ("atom", "t3", "line")])))),
+                 "two-line text without name": ([("lit", "\n"), ("atom", "t1", "line"), ("lit", "\n"), ("atom", "t2", "line")],
+                                                ("enum", LIC + "Text", (symstr.mk([("atom", "t1", "line"), ("lit", "\n"), ("atom", "t2", "line")]),)))}
+        for nm, (ps, want) in cases.items():
+            para = ("abs", "para", ((symstr.lit("Files"), symstr.atom("pat", "word")), (symstr.lit("License"), symstr.mk(ps))))
+            I = hirai.Interp(F, c15.Mod(F))
+            st = hirai.State(depth=0).setroot(("T", "fp"), ("struct", LL + "FilesParagraph", (("0", para),)))
+            res = I.inline(lf, [("ref", (("T", "fp"),))], st)
+            got = [roundtrip.normalize(I.deep_deref(s, I.deref_val(s, v), 0)) if ctl == OK else (ctl, str(v)[:60]) for ctl, v, s in res]
+            C.ob("C17/files-licence-reading", nm, got == [roundtrip.normalize(some(want))], "license() on %r returns %s, expected %s" % (symstr.show(symstr.mk(ps)), [roundtrip.show_value(g)[:100] if isinstance(g, tuple) and g and g[0] != "panic" else str(g) for g in got], roundtrip.show_value(some(want))), lf["sp"])
 
     # ------------------------------------------------------------------ D4 licence fallback
     lic_vals = {
